@@ -23,11 +23,14 @@ import os
 from fractions import Fraction
 from typing import Any, Dict, List, Optional, Tuple
 
+import logging
+
 from harness import common as C
 from harness import pdfwriter as W
 from harness.props import c02_writer as CW
 
 LEVEL = "proof"
+logging.getLogger("pdfminer").setLevel(logging.ERROR)   # e.g. "Circular cross-reference chain" on generated cycles
 RULE = ("histories of 1-6 revisions over object numbers 1..40 (define/override sets, values of every PDF type incl. "
         "streams), written with a form per revision drawn from {classic table, xref stream, hybrid}, object-stream "
         "groups, W widths 0-4, Index shapes (maximal runs, gaps filled with free rows, head entry 0, full [0 Size) with "
@@ -38,8 +41,11 @@ RULE = ("histories of 1-6 revisions over object numbers 1..40 (define/override s
 TRUSTED_BASE = [
     "tools/harness/props/c02_writer.py (multi-revision PDF writer) and its description of what it wrote; the "
     "byte-level parts of the description are slices of the file given to pdfminer",
-    "hand model lean/PdfVerif/Model/Xref.lean (correspondence-checked per file); object syntax and stream filters "
+    "hand model lean/PdfVerif/Model/Xref.lean (correspondence-checked per file), built on Gen/Xref.lean which "
+    "tools/translate/gen_c02.py regenerates from pdfdocument.py/utils.py on every run; object syntax and stream filters "
     "are parameters of the model (objects appear as parsed headers + opaque value ids; C01/C03 cover them)",
+    "Lean twin of the writer (Spec/XrefWrite.lean): the harness checks Python writer bytes = Lean writer bytes for "
+    "every table text and xref-stream payload, so the round-trip theorems speak about the bytes pdfminer read",
     "zlib for Flate on xref/object streams",
 ]
 ASSUMPTIONS = [
@@ -60,12 +66,22 @@ STATEMENT_STATUS: Dict[str, str] = {
     "C02_xrefstm_entry": "proved (any number of Index ranges, widths 0.. with nunpack defaults)",
     "C02_xrefstm_objids": "proved for the repaired get_objids",
     "C02_objids_pinned_cex": "proved counter-example for the pinned get_objids (fixed in the repo)",
+    "C02_table_load": "proved (round 2): byte-level PDFXRef.load inverts the table writer, every EOL style, any subsections",
+    "C02_table_lookup": "proved (round 2): loaded table answers with the last in-use line written for n",
+    "C02_trailer_line": "proved (round 2)",
+    "C02_stream_load / C02_stream_load_default": "proved (round 2): PDFXRefStream.load + get_pos + get_objids end to end incl. /Index default",
+    "C02_chain_order": "proved (round 2): table -> XRefStm -> Prev, circular Prev not followed",
+    "C02_table_represents / C02_stream_represents": "proved (round 2): SecRep follows from what the writer wrote",
+    "C02_row_types / C02_inuse_types / C02_objstm_index / C02_defaults / C02_literals":
+        "proved (round 2) about definitions REGENERATED from the Python source (Gen/Xref.lean)",
+    "C02_table_fuel / C02_fallback_fuel": "proved (round 2): loops terminate within one iteration per byte",
+    "C02_fallback": "proved (round 2): body scan offsets = true offsets; hypothesis ItemsOK checked per damaged file by itemsOKb",
+    "C02_cue_header": "proved (round 2): PDFOBJ_CUE matcher accepts every rendered `n g obj` header",
     "C02_revreadlines_bufsize": "proved (all b >= 1, all byte strings)",
     "C02_startxref_bufsize": "proved (corollary)",
     "C02_damaged_cex": "proved counter-example (open finding wellformed-but-wrong-xref-no-rescan)",
-    "C02_damaged_partial": "partial: only for tables whose offsets are right; body-scan theorem (C02_fallback) not proved",
-    "table_load / stream_load / hybrid_load (byte-level writer inverse for the classic table text)": "not proved: model + correspondence only",
-    "C02_fallback": "not proved: fallbackLoad is modelled and tied by correspondence on classic files",
+    "C02_damaged_partial": "partial: the damaged-file clause holds when the cross-reference data that parses is right; "
+                           "a parsable but wrong table is never rebuilt (open finding)",
 }
 
 BUFSIZES = [1, 2, 3, 7, 16, 4096]
@@ -264,8 +280,8 @@ def gen_case(rng, small: bool = False) -> Dict[str, Any]:
     plans = []
     seen: set = set()
     mode = rng.random()
-    # a bare indirect reference as the value of a compressed object is legal but rare: generated in ~4% of cases
-    bare_ref = rng.random() < 0.04
+    # a bare indirect reference as the whole value of a compressed object is legal (was an open finding, now fixed)
+    bare_ref = True
     for k, rv in enumerate(revs):
         nums = [int(n) for n in rv["defs"]]
         if mode < 0.15:
@@ -304,7 +320,9 @@ def gen_case(rng, small: bool = False) -> Dict[str, Any]:
                 "order_seed": rng.choice([0, rng.randint(1, 10 ** 6)]),
                 "trailer_same_line": rng.random() < 0.3,
                 "f_for_hidden": rng.random() < 0.7,
-                "first_pad": rng.choice([0, 0, 1, 3])}
+                "first_pad": rng.choice([0, 0, 1, 3]),
+                # circular chain (the oldest section's /Prev points at itself): read_xref_from must stop
+                "self_prev": k == 0 and rng.random() < 0.08}
         if plan["full_index"]:
             # every number not defined anywhere yet is written free: allowed in revision 0 only
             pass
@@ -325,7 +343,7 @@ def build(case: Dict[str, Any]) -> Tuple[bytes, Dict[str, Any], List[CW.Rev]]:
                      full_index=p["full_index"], omit_index=p["omit_index"], xfilter=p["xfilter"],
                      ofilter=p["ofilter"], containers_in_table=p["containers_in_table"],
                      order_seed=p["order_seed"], trailer_same_line=p["trailer_same_line"],
-                     f_for_hidden=p["f_for_hidden"], first_pad=p["first_pad"])
+                     f_for_hidden=p["f_for_hidden"], first_pad=p["first_pad"], self_prev=p.get("self_prev", False))
         pl.fill_gaps = list(p["fill_gaps"])
         plans.append(pl)
     maxn = max(max(r.defs) for r in revs)
@@ -598,8 +616,8 @@ def shrink_case(case: Dict[str, Any], config: Tuple[int, bool], queries: List[in
         for k in range(len(cur["plans"])):
             for key, val in (("groups", []), ("w", None), ("fill_gaps", []), ("xfilter", "none"), ("ofilter", False),
                              ("order_seed", 0), ("first_pad", 0), ("full_index", False), ("head", False),
-                             ("trailer_same_line", False), ("form", "table")):
-                if budget <= 0 or cur["plans"][k][key] == val:
+                             ("trailer_same_line", False), ("self_prev", False), ("form", "table")):
+                if budget <= 0 or cur["plans"][k].get(key, val) == val:
                     continue
                 c = json.loads(json.dumps(cur))
                 c["plans"][k][key] = val
@@ -639,7 +657,7 @@ def report_failure(ctx: C.Ctx, case: Dict[str, Any], r, queries: List[int]) -> N
     # bounded work on a broken tree: shrink the first two failures of each kind, record a few more as found
     k = _REPORTED.get(what, 0)
     _REPORTED[what] = k + 1
-    if k >= 8 and not has_bare_ref_member(case):
+    if k >= 8:
         return
     small = shrink_case(case, config, queries, what) if (k < 2 and ctx.time_left()) else case
     r2 = check_case(None, small, [config], queries)
@@ -754,12 +772,34 @@ def tie_case(ctx: C.Ctx, case: Dict[str, Any], data: bytes, layout: Dict[str, An
     tparts = [part for sec in reversed(layout["sections"]) for part in sec["parts"] if part["kind"] == "table"]
     for part in tparts:
         qlines.append(f"q.table {part['after_kw']}")
+    # the Lean twins of the writer: same bytes for every table text / xref-stream payload
+    eol_name = {"\n": "lf", "\r\n": "crlf", "\r": "cr"}[case["eol"]]
+    ee_name = {" \n": "splf", "\r\n": "crlf", " \r": "spcr"}[case["entry_eol"]]
+    twins = []
+    for sec in layout["sections"]:
+        for part in sec["parts"]:
+            if part["kind"] == "table":
+                subs = []
+                ents = {e[0]: e for e in part["entries"]}
+                for (s0, c0) in CW.runs(list(ents)):
+                    subs.append("%d:%d:%d:%s" % (s0, len(str(s0)), len(str(c0)),
+                                                 ",".join("%d/%d/%s" % ents[n][1:4] for n in range(s0, s0 + c0))))
+                q = f"q.render {eol_name} {ee_name} {';'.join(subs) if subs else '-'}"
+                twins.append((q, C.hx(data[part["after_kw"] + len(case["eol"]):part["trailer_at"]])))
+            else:
+                q = "q.encrows %s %s" % (csv(part["w"]), ",".join("%d/%d/%d" % r[1:4] for r in part["rows"]) or "-")
+                twins.append((q, C.hx(part["data"])))
+    qlines += [q for q, _ in twins]
     out = ctx.driver.ask(lines + qlines)
     inp = {"kind": "history", "case": case, "queries": queries}
     if any(o != "ok" for o in out[:nsetup]):
         ctx.disagree("setup", inp, "ok", [o for o in out[:nsetup] if o != "ok"][:3])
         return
     r = dict(zip(qlines, out[nsetup:]))
+    for q, want in twins:
+        ctx.branch("twin:" + q.split(" ")[0])
+        if r[q] != want:
+            ctx.disagree("writer-twin " + q.split(" ")[0], inp, want[:200], r[q][:200])
     try:
         with Watchdog(30.0):
             _tie_compare(ctx, inp, data, layout, queries, exp, bufs, r, qs, bound, tparts, containers)
@@ -981,10 +1021,31 @@ def tie_damaged(ctx: C.Ctx, dc: Dict[str, Any], bufsiz: int) -> None:
             end = data.find(b"endobj", m.start()) + 6
             lines.append(f"obj {m.start()} {int(m.group(1))} {int(m.group(2))} p1")
             lines.append(f"end {m.start()} {end}")
+        # the body as items (plain lines / objects) up to the trailer line: hypothesis of C02_fallback
+        heads = {m.start(): m for m in re.finditer(rb"(?:(?<=[\r\n])|^)(\d+) (\d+) obj", data)}
+        line_re = re.compile(rb"[^\r\n]*(?:\r\n|\r|\n)")
+        pos = 0
+        tr_line = None
+        while pos < len(data):
+            lm = line_re.match(data, pos)
+            if lm is None:
+                break
+            ln = lm.group(0)
+            if ln.startswith(b"trailer"):
+                tr_line = pos
+                break
+            if pos in heads:
+                end = data.find(b"endobj", pos) + 6
+                lines.append("item o %d %d %s %s" % (int(heads[pos].group(1)), int(heads[pos].group(2)),
+                                                   C.hx(ln), C.hx(data[pos + len(ln):end])))
+                pos = end
+            else:
+                lines.append("item l " + C.hx(ln))
+                pos = lm.end()
         nset = len(lines)
         sx = data.rfind(b"startxref")
         xr = data.rfind(b"xref", 0, sx)
-        q = ["q.fallback"]
+        q = ["q.fallback", "q.itemsok"]
         is_kw = data[xr:xr + 4] == b"xref" and dc["damage"] != "xref-keyword"
         if is_kw:
             q.append(f"q.table {xr + 4}")
@@ -999,8 +1060,11 @@ def tie_damaged(ctx: C.Ctx, dc: Dict[str, Any], bufsiz: int) -> None:
         model_fb = fb.split(" ", 2)[2] if fb.startswith("ok ") and fb.count(" ") >= 2 else fb
         if impl_fb != model_fb:
             ctx.disagree("q.fallback", inp, impl_fb, fb)
+        ctx.branch("hyp:itemsOK:" + out[nset + 1].replace(" ", ","))
+        if out[nset + 1] != "true true true true":
+            ctx.disagree("q.itemsok", inp, "true true true true", out[nset + 1])
         if is_kw:
-            tb = out[nset + 1]
+            tb = out[nset + 2]
             impl_tb = table_impl(data, xr, bufsiz)
             ctx.branch("tie:q.table-damaged:" + ("ok" if tb.startswith("ok") else "error"))
             model_tb = tb.split(" ", 2)[2] if tb.startswith("ok ") and tb.count(" ") >= 2 else tb
@@ -1060,9 +1124,6 @@ def has_bare_ref_member(case: Dict[str, Any]) -> bool:
 
 
 CLASSIFIERS = {
-    # open: `3 0 R` as the whole value of a compressed object
-    "c02_objstm_bare_reference_member": lambda f: f.input.get("kind") == "history"
-    and f.tags.get("what") in ("getobj", "open", "catalog", "info") and has_bare_ref_member(f.input["case"]),
     # open: the damaged cross-reference data still parses, so PDFNoValidXRef is never raised and the body is not scanned
     "c02_damaged_xref_parses_no_rescan": lambda f: f.input.get("kind") == "damaged"
     and f.tags.get("damage") in ("table-offsets", "startxref-num") and f.tags.get("fallback_used") is False
@@ -1094,6 +1155,8 @@ def run_history_cases(ctx: C.Ctx) -> None:
             ctx.branch("form:" + p["form"])
         ctx.branch("eol:" + repr(case["eol"]))
         ctx.branch("tail:" + case["tail"])
+        if case["plans"][0].get("self_prev"):
+            ctx.branch("circular-prev")
         for sec in layout["sections"]:
             for part in sec["parts"]:
                 if part["kind"] == "stream":
@@ -1108,7 +1171,7 @@ def run_history_cases(ctx: C.Ctx) -> None:
         r = check_case(ctx, case, configs, queries)
         if r is not None:
             report_failure(ctx, case, r, queries)
-        if not has_bare_ref_member(case):
+        if True:
             exp = spec_observe(revs, layout, queries)
             tie_case(ctx, case, data, layout, revs, queries, exp, BUFSIZES if i % 3 == 0 else [bs[0], bs[1], 4096])
 
